@@ -26,6 +26,9 @@ impl<V> SMap<V> {
     pub fn new() -> (r: Self) ensures r.wf(), r.keys() == Seq::<Seq<char>>::empty(), r.map() == Map::<Seq<char>, V>::empty() { unimplemented!() }
     #[verifier::external_body]
     pub fn with_capacity(n: usize) -> (r: Self) ensures r.wf(), r.keys() == Seq::<Seq<char>>::empty(), r.map() == Map::<Seq<char>, V>::empty() { unimplemented!() }
+    // clear: every entry is removed
+    #[verifier::external_body]
+    pub fn clear(&mut self) requires old(self).wf() ensures final(self).wf(), final(self).keys() == Seq::<Seq<char>>::empty(), final(self).map() == Map::<Seq<char>, V>::empty() { unimplemented!() }
     #[verifier::external_body]
     pub fn len(&self) -> (r: usize) requires self.wf() ensures r == self.keys().len() { unimplemented!() }
     #[verifier::external_body]
